@@ -74,8 +74,53 @@ def run(ids: list[str]) -> None:
     sh(f"rm -rf {VERIF}/replays")
 
 
+def runwt(ids: list[str]) -> None:
+    """Development aid: like `run`, but in the scratch worktree /tmp/seed/<Cxx> instead of /repo, all seeds in
+    parallel (the worktree is checked out at /repo's HEAD first). Results go to seeded/results_wt.json only."""
+    from concurrent.futures import ThreadPoolExecutor
+
+    seeded = VERIF / "seeded"
+    head = sh("git -C /repo rev-parse HEAD")[1].strip()
+
+    def one(name: str) -> tuple[str, dict]:
+        d = seeded / name
+        meta = json.loads((d / "meta.json").read_text())
+        p = meta["property"]
+        wt = f"/tmp/seed/{p}"
+        sh(f"git -C {wt} checkout -q --detach {head}")
+        rc, out = sh(f"git -C {wt} apply {d}/patch.diff")
+        entry: dict = {"property": p}
+        try:
+            if rc != 0:
+                entry["error"] = "patch does not apply: " + out[-200:]
+            else:
+                rc, out = sh(f"cd {VERIF} && VERIF_REPO={wt} VERIF_EVIDENCE_DIR=/tmp/seed/evidence_wt timeout 900 ./check {p} --tier quick --no-lean", timeout=1000)
+                entry["line"] = next((l for l in out.splitlines() if l.startswith(("VIOLATION", "OK ", "INFRASTRUCTURE"))), out[-200:])
+        finally:
+            sh(f"git -C {wt} checkout -- .")
+        return name, entry
+
+    # one seed per property at a time (they share the property's worktree)
+    by_prop: dict[str, list[str]] = {}
+    for i in ids:
+        by_prop.setdefault(i.split("-")[0], []).append(i)
+    results = {}
+
+    def chain(names: list[str]) -> list[tuple[str, dict]]:
+        return [one(n) for n in names]
+
+    with ThreadPoolExecutor(max_workers=6) as ex:
+        for res in ex.map(chain, by_prop.values()):
+            for name, entry in res:
+                results[name] = entry
+                print(name, json.dumps(entry))
+    (seeded / "results_wt.json").write_text(json.dumps(results, indent=1))
+
+
 if __name__ == "__main__":
-    if sys.argv[1] == "confirm":
+    if sys.argv[1] == "runwt":
+        runwt(sys.argv[2:])
+    elif sys.argv[1] == "confirm":
         print(json.dumps(confirm(sys.argv[2], sys.argv[3]), indent=1))
     else:
         run(sys.argv[2:])
